@@ -79,3 +79,19 @@ pub fn unexpected() -> Vec<PanicRec> {
 pub fn take_unexpected() -> Vec<PanicRec> {
     std::mem::take(&mut *RECORDS.lock().unwrap_or_else(|e| e.into_inner()))
 }
+
+/// While the guard lives, a panic on this thread is treated as expected
+/// (recorded nowhere).  Used by the deliberately panicking harness handler.
+pub struct ExpectedPanicGuard;
+
+pub fn expected_panic_guard() -> ExpectedPanicGuard {
+    install();
+    QUIET.with(|q| q.set(q.get() + 1));
+    ExpectedPanicGuard
+}
+
+impl Drop for ExpectedPanicGuard {
+    fn drop(&mut self) {
+        QUIET.with(|q| q.set(q.get().saturating_sub(1)));
+    }
+}
